@@ -105,7 +105,7 @@ static void build_request(const struct spec *s0, struct dp_buf *w)
 enum { RQ_SHORT, RQ_RESPONSE, RQ_MALFORMED, RQ_WELLFORMED };
 static const char *rq_name[] = { "too-short", "response-message", "malformed", "wellformed" };
 struct qref {
-	int cls, opcode, nq, has_opt, reserved_label, lenient, err; uint16_t id, flags; unsigned opt_size;
+	int cls, opcode, nq, has_opt, reserved_label, lenient, any_nul, err; uint16_t id, flags; unsigned opt_size;
 	struct { char text[320]; size_t len; int type, class_, has_nul; } q[6];
 };
 static void ref_request(const uint8_t *msg, size_t len, struct qref *o)
@@ -129,6 +129,8 @@ static void ref_request(const uint8_t *msg, size_t len, struct qref *o)
 	for (unsigned i = 0; i < total; i++) {
 		int rc = dw_read_rr(&rd, &rr);
 		if (rc == DW_E_LABEL_TYPE) o->reserved_label = 1;
+		/* the server stops reading the additional section at the first OPT record: whatever follows it is not judged */
+		if (rc && o->has_opt) { o->lenient = 1; break; }
 		if (rc) { o->err = rc; return; }
 		if (rr.owner.fwd_ptr || rr.owner.overlong) o->lenient = 1;
 		if (i >= (unsigned)h.an + h.ns && rr.type == DW_TYPE_OPT && !o->has_opt) { o->has_opt = 1; o->opt_size = rr.class_; }
@@ -158,6 +160,7 @@ static void judge_request(const struct spec *s, const uint8_t *msg, size_t len, 
 	if (R.reserved_label) { MC_COUNT("ref_reserved_label_type_unjudged"); return; }
 	if (l->calls == 1) {
 		MC_COUNT("outcome_callback");
+		if (R.cls != RQ_WELLFORMED && R.lenient) { MC_COUNT("ref_lenient_unjudged"); return; }
 		if (R.cls != RQ_WELLFORMED) {
 			char key[96]; snprintf(key, sizeof key, "C37/callback-for-%s-message", rq_name[R.cls]);
 			mc_fail(key, "%s: user callback invoked; reference decoder: %s (%s)", g_ctx, rq_name[R.cls], dw_strerror(R.err));
@@ -178,7 +181,7 @@ static void judge_request(const struct spec *s, const uint8_t *msg, size_t len, 
 	} else {
 		MC_COUNT("outcome_no_callback");
 		if (s->canon && full) mc_fail("C37/wellformed-query-not-delivered", "%s: canonical standard query did not reach the user callback", g_ctx);
-		if (R.cls == RQ_WELLFORMED && R.opcode && !R.lenient) {
+		if (R.cls == RQ_WELLFORMED && R.opcode && !R.lenient && !R.any_nul) {
 			MC_COUNT("oracle_notimpl_checked");
 			if (!r->have) { mc_fail("C37/nonstandard-opcode-not-answered", "%s: opcode %d: no response at all", g_ctx, R.opcode); return; }
 			if (r->n < 12 || (dw_get_u16(r->b + 2) & 0x800f) != 0x8004) { mc_fail("C37/nonstandard-opcode-not-answered-notimpl", "%s: opcode %d answered with flags %04x", g_ctx, R.opcode, r->n >= 4 ? dw_get_u16(r->b + 2) : 0); return; }
@@ -190,7 +193,7 @@ static void judge_request(const struct spec *s, const uint8_t *msg, size_t len, 
 		if (r->n < 12) { mc_fail("C37/response-too-short", "%s: %zu octets", g_ctx, r->n); return; }
 		if (dw_get_u16(r->b) != R.id) mc_fail("C37/response-id-differs", "%s: id %04x, request %04x", g_ctx, dw_get_u16(r->b), R.id);
 		if (!(dw_get_u16(r->b + 2) & DW_F_QR)) mc_fail("C37/response-without-qr", "%s: flags %04x", g_ctx, dw_get_u16(r->b + 2));
-		if (!l->calls && !(R.cls == RQ_WELLFORMED && R.opcode)) mc_fail("C37/response-without-callback", "%s: a %s message was answered (flags %04x) without the user callback", g_ctx, rq_name[R.cls], dw_get_u16(r->b + 2));
+		if (!l->calls && !(R.cls == RQ_WELLFORMED && R.opcode) && !R.lenient) mc_fail("C37/response-without-callback", "%s: a %s message was answered (flags %04x) without the user callback", g_ctx, rq_name[R.cls], dw_get_u16(r->b + 2));
 	} else if (l->calls && l->respond_rc == 0) mc_fail("C37/response-lost", "%s: evdns_server_request_respond returned 0 but nothing arrived", g_ctx);
 	/* OPT size family */
 	if (s->kind == K_OPTSIZE && l->calls == 1 && r->have && r->n >= 12) {
@@ -316,7 +319,7 @@ static int is_canon(const struct spec *s)
 }
 static void generate(const char *tier)
 {
-	int thorough = !strcmp(tier, "thorough"), maxdev = thorough ? 4 : 2;
+	int thorough = !strcmp(tier, "thorough"), maxdev = thorough ? 4 : 3;
 	dd_cap = 1u << 19; dd = calloc(dd_cap, sizeof *dd);
 	struct spec s;
 	for (int h = 0; h < N_H; h++) for (int q = 0; q < N_Q; q++) for (int n = 0; n < N_N; n++) for (int t = 0; t < N_S; t++) {
